@@ -111,7 +111,8 @@ Qed.
 (* the opcode decides the constructor: what `run` tests with op =? op_HALT *)
 Lemma parse_args_halt op b i r : parse_args op b = Ok (i, r) -> (op =? op_HALT) = true -> i = IHalt /\ r = b.
 Proof.
-  intros H E. apply N.eqb_eq in E. subst op. cbn in H. inversion H. auto.
+  intros H E. apply N.eqb_eq in E. subst op.
+  change (parse_args op_HALT b) with (@Ok err (instr * bytes) (IHalt, b)) in H. inversion H. auto.
 Qed.
 
 (* b is a sequence of complete instructions, each satisfying P *)
@@ -128,7 +129,7 @@ Qed.
 Lemma code_ok_inv P b i r : code_ok P b -> decode_one b = Ok (i, r) -> P i /\ code_ok P r.
 Proof.
   intros H Hd. inversion H as [Hb|b0 i0 r0 Hd0 Hp Hr]; subst.
-  - cbn in Hd. discriminate.
+  - change (decode_one []) with (@Err err (instr * bytes) EGen) in Hd. discriminate.
   - rewrite Hd in Hd0. inversion Hd0; subst. auto.
 Qed.
 
@@ -590,7 +591,8 @@ Proof.
     unfold st3. destruct (getf st1 FLAG_WAIT); [apply flagish_resetf|apply flagish_refl]. }
   clearbody v0. clear HV.
   destruct b as [|x b'] eqn:Eb.
-  { (* empty code: op_split fails *) cbn. apply hsafe_mk; auto. }
+  { (* empty code: op_split fails *)
+    change (op_split []) with (@Err err (N * bytes) EGen). cbv iota. apply hsafe_mk; auto. }
   rewrite <- Eb in *. assert (Hne : b <> []) by (rewrite Eb; discriminate). clear Eb.
   destruct (code_ok_decodes _ _ Hb Hne) as (i & r & Hd & Hi & Hr).
   destruct (decode_one_split _ _ _ Hd) as (op & b1 & Hop & Hpa).
@@ -796,7 +798,7 @@ Proof.
   intros Hkt. destruct (Hk Hkt) as (K1 & K2 & K3 & K4).
   destruct (cache_pop_spec ca ca' K2 Hpop) as (C1 & C2 & _).
   split; [|split; [exact C1|split; [congruence|exact K4]]].
-  unfold nav_inv in *. rewrite Hp in *. rewrite len_nil in *. rewrite K1 in Hlv. cbn in Hlv. lia.
+  unfold nav_inv in *. rewrite Hp in *. rewrite len_nil in *. rewrite K1 in Hlv. change (0 + 1 =? 1) with true in Hlv. cbv iota in Hlv. lia.
 Qed.
 
 (* the entry function's frame can be opened: depth within the limit, not already inside "_first" *)
@@ -1474,3 +1476,187 @@ Lemma no_panic_refuted_flagcount :
          (snd (hist_long (app_rsrc wit_flags_app) wit_flags_cfg (new_engine wit_flags_cfg None [] []) [(100%nat, [])]))
      = [(SPanic 20, FPanic 20)].
 Proof. vm_compute. repeat split. Qed.
+
+(* ---- entry function, long-lived engine: once initialised, runFirst never runs again ------------ *)
+Lemma set_code_eng_initd e b : e_initd (fst (set_code_eng e b)) = e_initd e.
+Proof.
+  unfold set_code_eng. cbv zeta. destruct b; [|reflexivity].
+  destruct (getf _ FLAG_DIRTY); [destruct (cache_last (v_ca (e_v e)))|]; reflexivity.
+Qed.
+
+Lemma eng_init_initd fuel rs c e input :
+  e_initd e = true -> e_initd (fst (fst (eng_init fuel rs c e input))) = true.
+Proof.
+  intros Hi. unfold eng_init.
+  set (prep := if e_execd e then let '(e', _, f) := eng_flush fuel rs c e in (e', stat_of_f f) else (e, SOk)).
+  assert (Hp : e_initd (fst prep) = true).
+  { unfold prep. destruct (e_execd e); [|exact Hi].
+    assert (F3 : e_initd (fst (fst (eng_flush fuel rs c e))) = e_initd e).
+    { unfold eng_flush. destruct (negb (e_execd e)); [reflexivity|].
+      destruct (vm_render fuel rs (c_sep c) (s_lang (v_st (e_v e))) (e_v e)) as [v r]. cbv zeta.
+      destruct (eng_reset_inner (e_v (eset_v e v))) as [v' s'].
+      destruct r; repeat match goal with
+        | |- context [if ?cc then _ else _] => destruct cc
+        | |- context [match e_exit ?x with _ => _ end] => destruct (e_exit x)
+        | |- context [match ?x with SOk => _ | SErr _ _ => _ | SPanic _ => _ | SFuel => _ end] => destruct x
+        end; reflexivity. }
+    destruct (eng_flush fuel rs c e) as [[e' o] f]. cbn [fst snd] in *. congruence. }
+  destruct prep as [e1 s1]. cbn [fst] in Hp.
+  destruct s1; try (cbn [fst]; exact Hp).
+  cbv zeta. cbn [e_initd]. rewrite Hp. reflexivity.
+Qed.
+
+Lemma eng_exec_initd fuel rs c e input :
+  e_initd e = true -> e_initd (fst (fst (eng_exec fuel rs c e input))) = true.
+Proof.
+  intros Hi. unfold eng_exec.
+  pose proof (eng_init_initd fuel rs c e input Hi) as H1.
+  destruct (eng_init fuel rs c e input) as [[e1 cont] s]. cbn [fst] in H1.
+  destruct s; try (cbn [fst]; exact H1).
+  destruct (negb cont); [cbn [fst]; exact H1|].
+  set (rf := if c_reset_empty c && (len input =? 0) then eng_reset_force c e1 else (e1, SOk)).
+  assert (Hrf : e_initd (fst rf) = true).
+  { unfold rf. destruct (c_reset_empty c && (len input =? 0)); [|exact H1].
+    unfold eng_reset_force. destruct (s_path (v_st (e_v e1))); [exact H1|]. cbv zeta.
+    destruct (eng_reset_inner _) as [v' s']. exact H1. }
+  destruct rf as [e2 s2]. cbn [fst] in Hrf.
+  destruct s2; try (cbn [fst]; exact Hrf).
+  destruct ((0 <? len input) && negb (valid_input_b input)); [cbn [fst]; exact Hrf|].
+  destruct (set_input (v_st (e_v e2)) (Some input)) as [st'|er|n]; try (cbn [fst]; exact Hrf).
+  unfold eng_exec_inner. cbv zeta. cbn [e_v eset_v v_st vset_st s_code].
+  destruct (s_code st'); [cbn [fst]; exact Hrf|].
+  destruct (run _ _ _ _ _ _) as [[v1 b] s]. destruct s; try (cbn [fst]; exact Hrf).
+  destruct (getf (v_st v1) FLAG_TERMINATE); [cbn [fst]; exact Hrf|].
+  match goal with |- context [set_code_eng ?ee b] =>
+    pose proof (set_code_eng_initd ee b) as Hs; destruct (set_code_eng ee b) as [e3 cont3] end.
+  cbn [fst] in *. rewrite Hs. exact Hrf.
+Qed.
+
+Lemma request_long_initd fuel rs c e input :
+  e_initd e = true -> e_initd (fst (request_long fuel rs c e input)) = true.
+Proof.
+  intros Hi. unfold request_long.
+  pose proof (eng_exec_initd fuel rs c e input Hi) as H1.
+  destruct (eng_exec fuel rs c e input) as [[e1 cont] s]. cbn [fst] in H1.
+  assert (F3 : e_initd (fst (fst (eng_flush fuel rs c e1))) = e_initd e1).
+  { unfold eng_flush. destruct (negb (e_execd e1)); [reflexivity|].
+    destruct (vm_render fuel rs (c_sep c) (s_lang (v_st (e_v e1))) (e_v e1)) as [v r]. cbv zeta.
+    destruct (eng_reset_inner (e_v (eset_v e1 v))) as [v' s'].
+    destruct r; repeat match goal with
+      | |- context [if ?cc then _ else _] => destruct cc
+      | |- context [match e_exit ?x with _ => _ end] => destruct (e_exit x)
+      | |- context [match ?x with SOk => _ | SErr _ _ => _ | SPanic _ => _ | SFuel => _ end] => destruct x
+      end; reflexivity. }
+  destruct s; try (cbn [fst]; exact H1);
+    destruct (eng_flush fuel rs c e1) as [[e2 out] f]; cbn [fst] in *; congruence.
+Qed.
+
+Lemma hist_long_safe_initd bits cap k rs c :
+  rs_wf bits cap k rs -> wf_sym (cfg_root c) ->
+  match c_first c with Some script => Forall (fr_ok bits cap k) script | None => True end ->
+  forall h e, EInv bits cap k e -> e_initd e = true ->
+  Forall resp_np (snd (hist_long rs c e h)) /\ EInv bits cap k (fst (hist_long rs c e h)).
+Proof.
+  intros Hrs Hroot Hf. induction h as [|[fuel input] h IH]; intros e HE Hi; cbn [hist_long].
+  - cbn [fst snd]. split; [constructor|exact HE].
+  - assert (HF : FirstOk bits cap k c e) by (unfold FirstOk; destruct (c_first c); [split; [exact Hf|left; exact Hi]|exact I]).
+    pose proof (request_long_safe bits cap k fuel rs c e input Hrs Hroot HE HF) as [R1 R2].
+    pose proof (request_long_initd fuel rs c e input Hi) as Hi'.
+    destruct (request_long fuel rs c e input) as [e' resp]. cbn [fst snd] in R1, R2, Hi'.
+    destruct (IH e' R2 Hi') as [I1 I2]. destruct (hist_long rs c e' h) as [e'' resps]. cbn [fst snd] in *.
+    split; [constructor; assumption|exact I2].
+Qed.
+
+Lemma wf_app_first a c :
+  wf_app_b a c = true ->
+  match c_first c with Some script => Forall (fr_ok (cfg_bits c) (c_cachesize c) false) script | None => True end.
+Proof.
+  intros Hwf. unfold wf_app_b in Hwf. cbv zeta in Hwf.
+  apply andb_true_iff in Hwf. destruct Hwf as [_ Hf].
+  destruct (c_first c) as [script|]; [|exact I].
+  rewrite forallb_forall in Hf. apply Forall_forall. intros fr Hin. apply fres_wf_ok. apply Hf. exact Hin.
+Qed.
+
+Lemma first_pre_fresh c : first_pre (v_st (e_v (new_engine c None [] []))) .
+Proof.
+  unfold new_engine. cbn [e_v v_st]. unfold first_pre.
+  assert (Hp : s_path (fresh_state c) = []).
+  { unfold fresh_state. cbv zeta.
+    assert (H1 : s_path (st_set_language lang_lookup (new_state (c_flagcount c)) (c_lang c)) = [])
+      by (destruct (flagish_set_language lang_lookup (new_state (c_flagcount c)) (c_lang c)) as (E & _); rewrite E; reflexivity).
+    destruct (s_lang _); [destruct (flagish_setf (st_set_language lang_lookup (new_state (c_flagcount c)) (c_lang c)) FLAG_LANG) as (E & _); rewrite E|]; exact H1. }
+  rewrite Hp. split; [cbn; lia|cbn; discriminate].
+Qed.
+
+(* with an entry function, long-lived engine: the first request of a new engine is safe, and if it
+   leaves the engine initialised every later history is *)
+Lemma history_no_panic_first_long a c fuel input h :
+  wf_app_b a c = true -> cfg_okb c = true ->
+  resp_no_panic (snd (request_long fuel (app_rsrc a) c (new_engine c None [] []) input))
+  /\ (e_initd (fst (request_long fuel (app_rsrc a) c (new_engine c None [] []) input)) = true ->
+      Forall resp_no_panic
+        (snd (hist_long (app_rsrc a) c (fst (request_long fuel (app_rsrc a) c (new_engine c None [] []) input)) h))).
+Proof.
+  intros Hwf Hc. apply cfg_okb_sound in Hc. pose proof (wf_app_rs_wf a c Hwf) as Hrs.
+  pose proof (wf_app_first a c Hwf) as Hfs.
+  assert (HF : FirstOk (cfg_bits c) (c_cachesize c) false c (new_engine c None [] [])).
+  { unfold FirstOk. destruct (c_first c); [|exact I]. split; [exact Hfs|right]. split; [reflexivity|apply first_pre_fresh]. }
+  destruct (request_long_safe _ _ false fuel (app_rsrc a) c _ input Hrs (proj1 Hc)
+              (new_engine_EInv false c None [] [] Hc I) HF) as [R1 R2].
+  split; [apply resp_np_no_panic; exact R1|].
+  intros Hi. destruct (hist_long_safe_initd _ _ false (app_rsrc a) c Hrs (proj1 Hc) Hfs h _ R2 Hi) as [H1 _].
+  eapply Forall_impl; [|exact H1]. intros r. apply resp_np_no_panic.
+Qed.
+
+Lemma request_no_panic a c k fuel input :
+  wf_app_b a c = true -> cfg_okb c = true ->
+  (k = true -> has_croak a = false /\ vals_small (c_cachesize c) a = true) ->
+  (forall e, EInv (cfg_bits c) (c_cachesize c) k e -> FirstOk (cfg_bits c) (c_cachesize c) k c e ->
+     resp_no_panic (snd (request_long fuel (app_rsrc a) c e input))
+     /\ EInv (cfg_bits c) (c_cachesize c) k (fst (request_long fuel (app_rsrc a) c e input)))
+  /\ (forall p, PInv (cfg_bits c) (c_cachesize c) k p ->
+     FirstOk (cfg_bits c) (c_cachesize c) k c (new_engine c (pw_store p) (pw_w p) (pw_log p)) ->
+     resp_no_panic (snd (request_persisted fuel (app_rsrc a) c p input))
+     /\ PInv (cfg_bits c) (c_cachesize c) k (fst (request_persisted fuel (app_rsrc a) c p input))).
+Proof.
+  intros Hwf Hc Hk. split.
+  - intros e HE HF. apply request_no_panic_long; assumption.
+  - intros p HP HF. apply request_no_panic_pers; assumption.
+Qed.
+
+(* ---- non-vacuity witness: LOAD + MAP + menu + INCMP + CATCH + _catch with an ascent ------------- *)
+Definition wit_app : app :=
+  mkApp [(s2b "root", encode_prog [ILoad (s2b "aa") 0; IMap (s2b "aa"); IMOut (s2b "go") (s2b "1"); IHalt; IInCmp (s2b "foo") (s2b "1")]);
+         (s2b "foo", encode_prog [ICatch (s2b "root") 9 true; IMOut (s2b "back") (s2b "0"); IHalt; IInCmp (s2b "_") (s2b "0")]);
+         (catch_sym, encode_prog [IHalt; IMove (s2b "_")])]
+        [(s2b "root", s2b "root {{.aa}}"); (s2b "foo", s2b "foo"); (catch_sym, s2b "catch")] []
+        [(s2b "aa", [mkFres (s2b "hello") false 0 [8] [] false])].
+Definition wit_cfg : config := mkCfg 0 [] 2 0 [] [] false None.
+(* start, valid selector, junk, over-long, unknown selector, ascent, and a request without fuel *)
+Definition wit_hist : list (nat * bytes) :=
+  [(200%nat, []); (200%nat, s2b "1"); (200%nat, s2b "!junk"); (200%nat, rep 65 300); (200%nat, s2b "9");
+   (200%nat, s2b "0"); (0%nat, s2b "1")].
+Definition resp_view (r : response) := (r_cont r, r_exec r, r_out r, r_flush r).
+Definition wit_trace : list (bool * stat * bytes * fstat) :=
+  [(true, SOk, s2b "root hello" ++ [10] ++ s2b "1:go", FOk);
+   (true, SOk, s2b "foo" ++ [10] ++ s2b "0:back", FOk);
+   (true, SErr EGen None, [], FErr EFlushNoExec);
+   (false, SErr EGen None, [], FErr EFlushNoExec);
+   (true, SOk, s2b "invalid input: '9'" ++ [10] ++ s2b "catch", FOk);
+   (true, SOk, s2b "foo" ++ [10] ++ s2b "0:back", FOk);
+   (false, SFuel, [], FFuel)].
+
+Lemma wit_guards :
+  wf_app_b wit_app wit_cfg = true /\ cfg_okb wit_cfg = true /\ c_first wit_cfg = None
+  /\ has_croak wit_app = false /\ vals_small (c_cachesize wit_cfg) wit_app = true.
+Proof. vm_compute. repeat split. Qed.
+Lemma wit_runs :
+  map resp_view (snd (hist_long (app_rsrc wit_app) wit_cfg (new_engine wit_cfg None [] []) wit_hist)) = wit_trace
+  /\ map resp_view (snd (hist_pers (app_rsrc wit_app) wit_cfg (mkPw None [] [] false) wit_hist)) = wit_trace.
+Proof. vm_compute. split; reflexivity. Qed.
+Lemma wit_invariant k : EInv (cfg_bits wit_cfg) (c_cachesize wit_cfg) k (new_engine wit_cfg None [] []).
+Proof. apply new_engine_EInv; [apply cfg_okb_sound; vm_compute; reflexivity|exact I]. Qed.
+Lemma wit_rs_wf : rs_wf (cfg_bits wit_cfg) (c_cachesize wit_cfg) true (app_rsrc wit_app).
+Proof. apply wf_app_rs_wf_consistent; vm_compute; reflexivity. Qed.
+(* the same application behind an entry function that succeeds *)
+Definition wit_first_cfg : config := mkCfg 0 [] 2 0 [] [] false (Some [wit_first_ok]).
